@@ -113,6 +113,27 @@ fn dec(form: &str, bytes: &[u8]) -> Result<Element, String> {
             let e = Encoding::deserialize_compressed(&bytes[..]).map_err(|_| "err-len".to_string())?;
             e.vartime_decompress().map_err(ee)
         }
+        // the other (Compress, Validate) modes of the stream deserialisers: every one of them is a public constructor
+        "deser_elem_unc" | "deser_elem_unchecked" | "deser_elem_unc_unchecked" | "deser_aff_unc" | "deser_aff_unchecked" | "deser_aff_unc_unchecked" => {
+            use std::panic::{catch_unwind, AssertUnwindSafe};
+            let b = bytes.to_vec();
+            let f = form.to_string();
+            let r = catch_unwind(AssertUnwindSafe(move || -> Result<Element, String> {
+                let e = |_| "err-enc".to_string();
+                Ok(match f.as_str() {
+                    "deser_elem_unc" => Element::deserialize_uncompressed(&b[..]).map_err(e)?,
+                    "deser_elem_unchecked" => Element::deserialize_compressed_unchecked(&b[..]).map_err(e)?,
+                    "deser_elem_unc_unchecked" => Element::deserialize_uncompressed_unchecked(&b[..]).map_err(e)?,
+                    "deser_aff_unc" => Affine::deserialize_uncompressed(&b[..]).map_err(e)?.into(),
+                    "deser_aff_unchecked" => Affine::deserialize_compressed_unchecked(&b[..]).map_err(e)?.into(),
+                    _ => Affine::deserialize_uncompressed_unchecked(&b[..]).map_err(e)?.into(),
+                })
+            }));
+            match r {
+                Ok(x) => x,
+                Err(_) => Err("panic".into()),
+            }
+        }
         _ => Err("unsupported".into()),
     }
 }
